@@ -16,7 +16,7 @@ func init() {
 	register(&Check{
 		ID:  "C23",
 		Run: runC23,
-		Explanation: "Decides that every serialisation point of the PDF writer is preceded by the matching encryption step whenever an encryption key is set: (R1) every call of writeObject(ctx, n, g, s) in pkg/pdfcpu is classified by what s is serialised from — a Dict/Array (PDFString, sigDictPDFString): on every path from the function entry the call is preceded by the success edge of encryptDeepObject applied to that same value, or by the nil edge of ctx.EncKey; a StringLiteral/HexLiteral: s must be the PDFString of the result of encryptStringLiteral/encryptHexLiteral on the EncKey!=nil path; a Name/Boolean/Integer/Float/constant: exempt (no string content); the encryption dictionary writer: exempt by table; anything else (raw bytes of an undecoded object) is reported; (R1b) in writeStreamDictObject every path to writeStreamObject passes the success edge of encryptStream whose result is stored into sd.Raw (followed by the Length update), or one of exactly three skip edges: EncKey == nil, /Type /XRef, single Crypt filter; every caller of writeStreamDictObject is either writeDeepStreamDict (which must first pass encryptDeepObject on the stream dictionary value), or in the exempt table (xref stream — no strings by construction; object-stream container — its content is the diverted objects and is encrypted as a stream); (R2 TABLE) encryptDeepObject's type switch handles exactly the string-bearing kinds {StreamDict, Dict, Array, StringLiteral, HexLiteral}, every call site passes a value whose static type is one of the handled case types (a *StreamDict, which silently falls into the empty default, is rejected), the only non-encrypting exits are the IndirectRef early return and the default clause; encryptDict skips only /Contents of signature dictionaries. NOT decided: cipher strength/correctness (C22/C24), that a run of ciphertext bytes cannot coincide with a plaintext string.",
+		Explanation: "Decides that every serialisation point of the PDF writer is preceded by the matching encryption step whenever an encryption key is set: (R1) every call of writeObject(ctx, n, g, s) in pkg/pdfcpu is classified by what s is serialised from — a Dict/Array (PDFString, sigDictPDFString): on every path from the function entry the call is preceded by the success edge of encryptDeepObject applied to that same value, or by the nil edge of ctx.EncKey; a StringLiteral/HexLiteral: s must be the PDFString of the result of encryptStringLiteral/encryptHexLiteral on the EncKey!=nil path; a Name/Boolean/Integer/Float/constant: exempt (no string content); the encryption dictionary writer: exempt by table; anything else (raw bytes of an undecoded object) is reported; (R1b) in writeStreamDictObject every path to writeStreamObject passes the success edge of encryptStream whose result is stored into sd.Raw (followed by the Length update), or one of exactly three skip edges: EncKey == nil, /Type /XRef, single Crypt filter; every caller of writeStreamDictObject is either writeDeepStreamDict (which must first pass encryptDeepObject on the stream dictionary value), or in the exempt table (xref stream — no strings by construction; object-stream container — its content is the diverted objects and is encrypted as a stream); (R2 TABLE) encryptDeepObject's type switch handles exactly the string-bearing kinds {StreamDict, Dict, Array, StringLiteral, HexLiteral}, every call site passes a value whose static type is one of the handled case types (a *StreamDict, which silently falls into the empty default, is rejected), the only non-encrypting exits are the IndirectRef early return and the default clause; encryptDict skips only /Contents of signature dictionaries. (R4 once) the writers that encrypt their object in place (writeDictObject, writeArrayObject, writeStreamDictObject, writeObjectGeneric) are reached only for an object number without a write offset (HasWriteOffset false edge, or a successful PageTreeVisit.Enter for the node entered in that function), directly or — computed as a greatest fixpoint over the call graph — because every caller of the enclosing function is; writers of objects created for this write are listed by table: an object written twice is encrypted twice, which under RC4 restores the plaintext in the copy the xref table points to. NOT decided: cipher strength/correctness (C22/C24), that a run of ciphertext bytes cannot coincide with a plaintext string.",
 		Rules: []string{
 			"C23.R1 MPT: encrypt before serialise at every writeObject / writeStreamObject site",
 			"C23.R2 TABLE: encryptDeepObject covers all string-bearing kinds; call-site argument types are handled kinds",
